@@ -168,6 +168,11 @@ def correspond(ctx, scale):
                     z = torch.tensor(cols, dtype=torch.float32).T.reshape(1, n, ncb * d)
                     try:
                         q = FSQ(levels, num_codebooks=ncb, preserve_symmetry=sym)
+                        if (fid + len(levels)) % 3 == 1:
+                            # the module went through a low-precision cast and back (.half() / .bfloat16() then .float()): its non-learned float buffers
+                            # were rounded on the way - codes and the codec must still be those of the declared grid
+                            q = (q.bfloat16() if fid % 2 == 0 else q.half()).float()
+                            dist['cast_round_trips'] = dist.get('cast_round_trips', 0) + 1
                         q.train(train)
                         out, idx = q(z)
                         # the same values as a dense permuted view of the caller's tensor: same codes, same indices
